@@ -111,7 +111,11 @@ Definition t_reset (nw : Z) (niv : option Z) (tm : timer) : timer :=
   mkT (nw + iv) iv (t_persist tm) (t_pend tm) (t_reg tm).
 
 Definition t_set_pend (tm : timer) : timer := mkT (t_exp tm) (t_int tm) (t_persist tm) true (t_reg tm).
-Definition t_removed (tm : timer) : timer := mkT (t_exp tm) (t_int tm) (t_persist tm) false false.
+(* _do_prepare_unregister_complete: delattr(_unregister_pending), leave the tree.  The event that triggers it is fired
+   only by the completion of the timer's own prepare_unregister, i.e. while the flag is set (delattr would raise
+   otherwise); a state in which it arrives without the flag is unreachable and left unchanged here. *)
+Definition t_removed (tm : timer) : timer :=
+  if t_pend tm then mkT (t_exp tm) (t_int tm) (t_persist tm) false false else tm.
 
 Definition create (s : st) (iv : Z) (p : bool) (dl : option Z) : st :=
   let s1 := set_timers s (timers s ++ [mkT (now s + iv) iv p false true]) in
@@ -296,3 +300,69 @@ Definition init (t0 : Z) (sts : list (Z * bool * nat)) (sch : list nat) : st :=
   mkSt t0 [] [] [] sts sch [] false.
 
 Definition history (s : st) : list lrec := rev (rlog s).
+
+(* ================================================================ specification (monitor)
+   The property read as an acceptor of histories.  Per timer the specification remembers when it was last armed
+   (created, reset, or fired if persistent), its interval, whether it is persistent and whether it is alive
+   (registered and no unregistration requested, one-shot not yet fired). *)
+
+Record stimer := mkS { s_t0 : Z; s_iv : Z; s_p : bool; s_alive : bool }.
+Definition s_exp (x : stimer) : Z := s_t0 x + s_iv x.
+
+Definition dur (num den : Z) (w : tlv) : option Z :=
+  match w with Inf => None | Fin d => Some d | Tmo => Some (ceil_div num den) end.
+
+Definition s_rearm (t : Z) (niv : option Z) (x : stimer) : stimer :=
+  mkS t (match niv with Some v => v | None => s_iv x end) (s_p x) (s_alive x).
+Definition s_kill (x : stimer) : stimer := mkS (s_t0 x) (s_iv x) (s_p x) false.
+(* a firing re-arms a persistent timer and ends a one-shot *)
+Definition s_fired (t : Z) (x : stimer) : stimer := if s_p x then s_rearm t None x else s_kill x.
+
+(* timer i may fire at t: it is alive and its interval has elapsed since it was armed *)
+Definition fire_ok (ms : list stimer) (t : Z) (i : nat) : bool :=
+  match nth_error ms i with Some x => s_alive x && (s_exp x <=? t) | None => false end.
+
+Fixpoint sdue_from (t : Z) (i : nat) (ms : list stimer) : list nat :=
+  match ms with
+  | [] => []
+  | x :: r => if s_alive x && (s_exp x <=? t) then i :: sdue_from t (S i) r else sdue_from t (S i) r
+  end.
+
+(* an idle wait of [w] started at t does not pass the expiry of any alive timer *)
+Definition wait_ok (num den : Z) (ms : list stimer) (t : Z) (w : tlv) : bool :=
+  forallb (fun x => negb (s_alive x) ||
+                    match dur num den w with Some d => t + d <=? s_exp x | None => false end) ms.
+
+Definition mon_step (num den : Z) (ms : list stimer) (r : lrec) : option (list stimer) :=
+  match r with
+  | LCreate t iv p dl =>
+      if match dl with Some d => t + iv =? floorsec d | None => true end
+      then Some (ms ++ [mkS t iv p true]) else None
+  | LReset i t niv => match nth_error ms i with Some _ => Some (upd ms i (s_rearm t niv)) | None => None end
+  | LUnreq i t => match nth_error ms i with Some _ => Some (upd ms i s_kill) | None => None end
+  | LDisp _ _ => Some ms
+  | LIter t fired w =>
+      if nodupb fired                                               (* nobody fires twice in one iteration *)
+         && forallb (fire_ok ms t) fired                            (* never early, only alive timers *)
+         && forallb (fun i => memb i fired) (sdue_from t 0 ms)      (* every due timer fires in this iteration *)
+         && match w with
+            | None => true
+            | Some w' => match fired with [] => wait_ok num den ms t w' | _ => false end   (* sleep bound *)
+            end
+      then Some (fold_left (fun m i => upd m i (s_fired t)) fired ms)
+      else None
+  end.
+
+Fixpoint mon_run (num den : Z) (ms : list stimer) (l : list lrec) : option (list stimer) :=
+  match l with
+  | [] => Some ms
+  | r :: l' => match mon_step num den ms r with Some ms' => mon_run num den ms' l' | None => None end
+  end.
+
+(* what the specification knows about the timers after a history (None: the history violates the property) *)
+Definition spec_after (p : prog) (l : list lrec) : option (list stimer) :=
+  mon_run (p_tmo_num p) (p_tmo_den p) [] l.
+
+(* the specification's view of a concrete timer *)
+Definition abs (tm : timer) : stimer :=
+  mkS (t_exp tm - t_int tm) (t_int tm) (t_persist tm) (t_reg tm && negb (t_pend tm)).
